@@ -71,6 +71,9 @@ pub struct EndConfig {
     pub extended_connect: bool,
     pub datagram: bool,
     pub max_wt_sessions: Option<u64>,
+    /// in which order the builder's setters are called (0 = declaration order, 1 = reversed, 2 / 3 = two other permutations;
+    /// +4: every boolean setter is first called with the opposite value): the outcome must not depend on it
+    pub setter_order: u8,
 }
 
 #[derive(Debug, Clone)]
@@ -330,23 +333,65 @@ pub fn gen_scenario(t: &mut Tape) -> Scenario {
     }
 }
 
+const SETTER_PERMS: [[usize; 6]; 4] = [[0, 1, 2, 3, 4, 5], [5, 4, 3, 2, 1, 0], [2, 1, 3, 0, 5, 4], [3, 2, 0, 1, 4, 5]];
+
 pub fn server_builder(c: &EndConfig) -> h3::server::Builder {
     let mut b = h3::server::builder();
-    b.send_grease(c.grease).enable_webtransport(c.webtransport).enable_extended_connect(c.extended_connect).enable_datagram(c.datagram);
-    if let Some(m) = c.max_field_section_size {
-        b.max_field_section_size(m);
+    if c.setter_order & 4 != 0 {
+        b.send_grease(!c.grease).enable_webtransport(!c.webtransport).enable_extended_connect(!c.extended_connect).enable_datagram(!c.datagram);
     }
-    if let Some(m) = c.max_wt_sessions {
-        b.max_webtransport_sessions(m);
+    for k in SETTER_PERMS[(c.setter_order & 3) as usize] {
+        match k {
+            0 => {
+                b.send_grease(c.grease);
+            }
+            1 => {
+                b.enable_webtransport(c.webtransport);
+            }
+            2 => {
+                b.enable_extended_connect(c.extended_connect);
+            }
+            3 => {
+                b.enable_datagram(c.datagram);
+            }
+            4 => {
+                if let Some(m) = c.max_field_section_size {
+                    b.max_field_section_size(m);
+                }
+            }
+            _ => {
+                if let Some(m) = c.max_wt_sessions {
+                    b.max_webtransport_sessions(m);
+                }
+            }
+        }
     }
     b
 }
 
 pub fn client_builder(c: &EndConfig) -> h3::client::Builder {
     let mut b = h3::client::builder();
-    b.send_grease(c.grease).enable_extended_connect(c.extended_connect).enable_datagram(c.datagram);
-    if let Some(m) = c.max_field_section_size {
-        b.max_field_section_size(m);
+    if c.setter_order & 4 != 0 {
+        b.send_grease(!c.grease).enable_extended_connect(!c.extended_connect).enable_datagram(!c.datagram);
+    }
+    for k in SETTER_PERMS[(c.setter_order & 3) as usize] {
+        match k {
+            0 => {
+                b.send_grease(c.grease);
+            }
+            2 => {
+                b.enable_extended_connect(c.extended_connect);
+            }
+            3 => {
+                b.enable_datagram(c.datagram);
+            }
+            4 => {
+                if let Some(m) = c.max_field_section_size {
+                    b.max_field_section_size(m);
+                }
+            }
+            _ => {}
+        }
     }
     b
 }
